@@ -1,6 +1,9 @@
 #!/bin/sh
 # MANIFEST.setup_cmd: offline build of the Lean library, the model drivers and a warm Go build cache.
 set -e
+cd /verif/go
+cp /repo/go.sum go.sum
+GOFLAGS=-mod=mod GOPROXY=off go run ./cmd/factgen /repo /verif/lean/Generated/Facts.lean
 cd /verif/lean
 lake build
 for f in Driver/C[0-9][0-9].lean; do
